@@ -104,20 +104,41 @@ def rule_feed(ctx):
   want = sym.mk("mcall", curve, P("lit", "TransformOrderLen"), b2i(mh), sym.mk("len", mh) * 8)
   ok = z == want
   ctx.record(R, f.where, "z", ok, "z = curve.TransformOrderLen(Bytes2Int(hash), 8 * len(hash)) on the same bytes" if ok else "z is %r" % (z,))
-  # every HiddenNumberParams call in the checks is fed from ECDSAValues of the same signature
-  m = repo.mod("ecdsa_sig_checks")
+  # every HiddenNumberParams call in the checks is fed (r, s, z) = components 0, 1, 2 of one ECDSAValues triple, and the pair it returns is stored
+  # as (a[i], b[i]) at one position (read from the walker: unpacking style, loop form and names are irrelevant)
+  from . import template as T
   n_calls = 0
-  for fn in [x for c in m.classes.values() for x in c.methods.values()]:
-    for call in ast.walk(fn.node):
-      if isinstance(call, ast.Call) and isinstance(call.func, ast.Attribute) and call.func.attr == "HiddenNumberParams":
-        n_calls += 1
-        args = [ast.unparse(a) for a in call.args]
-        src = ast.unparse(fn.node)
-        ok = args == ["r", "s", "z"] and "r, s, z = unique_vals[i]" in src and "a[i], b[i] = curve.HiddenNumberParams(r, s, z)" in src
-        ctx.record(R, fn.where, "HiddenNumberParams(r, s, z)", ok, "(a[i], b[i]) from the same (r, s, z) triple in this order" if ok else
-                   "argument order / pairing of (r, s, z) changed: %s" % args)
-  if n_calls == 0:
-    ctx.incomplete(R, "ecdsa_sig_checks", "HiddenNumberParams call", "no consumer found")
+  for b in T.bodies(repo):
+    if not b.where().startswith("ecdsa_sig_checks:"):
+      continue
+    seen = set()
+    for e in b.events:
+      if e.kind != "call" or e.data["name"] != "meth:HiddenNumberParams" or id(e.node) in seen:
+        continue
+      seen.add(id(e.node))
+      n_calls += 1
+      args = [as_poly(a_) for a_ in e.data["args"]]
+      why = []
+      trip = None
+      if len(args) == 3:
+        ats = [a_.as_atom() for a_ in args]
+        if all(a_ is not None and a_.kind == "idx" for a_ in ats) and [as_poly(a_.args[1]).as_int() for a_ in ats] == [0, 1, 2] and len({repr(a_.args[0]) for a_ in ats}) == 1:
+          trip = ats[0].args[0]
+      if trip is None:
+        why.append("arguments are not (t[0], t[1], t[2]) of one triple t")
+      elif "ECDSAValues" not in repr(trip):
+        why.append("the triple does not come from ec_util.ECDSAValues")
+      # the returned pair: stores X[i] = call[0], Y[i] = call[1] at the same i
+      cv = as_poly(e.data["value"])
+      sts = [x for x in b.events if x.kind == "store" and not isinstance(x.data["value"], Seq) and as_poly(x.data["value"]).as_atom() is not None
+             and as_poly(x.data["value"]).as_atom().kind == "idx" and as_poly(x.data["value"]).as_atom().args[0] == cv]
+      comp = {}
+      for x in sts:
+        comp.setdefault(as_poly(as_poly(x.data["value"]).as_atom().args[1]).as_int(), set()).add((repr(as_poly(x.data["base"]))[:0] + repr(as_poly(x.data["index"]))))
+      if set(comp) != {0, 1} or comp[0] != comp[1] or len(comp[0]) != 1:
+        why.append("the returned (a, b) is not stored as a[i], b[i] at one position")
+      ctx.record(R, b.where(), "HiddenNumberParams(r, s, z)", not why, "(a[i], b[i]) from the same (r, s, z) triple in this order" if not why else
+                 "argument order / pairing of (r, s, z) changed: " + "; ".join(why))
 
 
 def rule_bytes(ctx):
